@@ -144,6 +144,18 @@ def run(ctx, rep):
         uses = [utext(a) for a in walk_nodes(h.node.body, ast.Attribute) if utext(a) == "market.market_book"]
         rep.check(len(d) == 1 and utext(d[0].value) == "self.flumine.markets.markets[order_package.market_id]" and uses,
                   "R1", key(h, None, "matches against the market's stored book"), h)
+        # paper trading waits the latency out in real time while the stream keeps replacing market.market_book:
+        # the book (and the list of orders still to act on) is read after the wait, never captured before it
+        cfgh = ctx.cfg(h)
+        sleeps = [n for n, c in node_calls(cfgh, "sleep")]
+        for sn in sleeps:
+            early = [m for m in cfgh.live_nodes() if m.id != sn.id and sn.id in cfgh.reachable(m.id, include_src=False)
+                     and any(isinstance(a, ast.Attribute) and a.attr in ("market_book", "status", "complete", "size_remaining")
+                             for e in m.exprs for a in ast.walk(e))
+                     and m.kind != "cond"]
+            rep.check(not early, "R1", key(h, None, "nothing of the market or of the orders is read before the paper-trade latency has passed"),
+                      h, early[0].exprs[0] if early else None,
+                      "state captured before the wait is stale when the request takes effect")
 
     # ------------------------------------------------------------------ R2 release loop
     release_loop(ctx, rep, "R2")
